@@ -416,6 +416,28 @@ func clientBody(kind int) func() string {
 			if err := st.NondeterministicFastCommit(1); err != nil {
 				return "ERR " + err.Error()
 			}
+		case 4:
+			// keys colliding on the first level under the DEFAULT digester: deeper levels come from
+			// the pooled digester object (obtained, used one level deeper, returned)
+			m, err := atree.NewMap(st, DefaultAddr, atree.NewDefaultDigesterBuilder(), tu.NewSimpleTypeInfo(4))
+			if err != nil {
+				return "ERR " + err.Error()
+			}
+			for k := 300; k < 303; k++ {
+				if _, err := m.Set(CompareValue, GetHashInput, ToAtree(KeyOfDefault(k)), tu.Uint64Value(uint64(k))); err != nil {
+					return "ERR " + err.Error()
+				}
+			}
+			for k := 300; k < 304; k++ {
+				v, err := m.Get(CompareValue, GetHashInput, ToAtree(KeyOfDefault(k)))
+				fmt.Fprintf(&sb, "get%d=%v,%v;", k, v, err != nil)
+			}
+			if _, _, err := m.Remove(CompareValue, GetHashInput, ToAtree(KeyOfDefault(301))); err != nil {
+				return "ERR " + err.Error()
+			}
+			if err := st.FastCommit(1); err != nil {
+				return "ERR " + err.Error()
+			}
 		case 3:
 			// a client whose commit is itself parallel
 			a, err := atree.NewArray(st, DefaultAddr, tu.NewSimpleTypeInfo(2))
@@ -436,7 +458,7 @@ func clientBody(kind int) func() string {
 	}
 }
 
-var clientSets = [][]int{{0, 0}, {0, 1}, {1, 1}, {1, 2}, {2, 2}, {0, 2}, {0, 1, 2}, {1, 3}, {0, 3}, {2, 3}}
+var clientSets = [][]int{{0, 0}, {0, 1}, {1, 1}, {1, 2}, {2, 2}, {0, 2}, {0, 1, 2}, {1, 3}, {0, 3}, {2, 3}, {4, 4}, {4, 0}, {4, 2}, {4, 3}}
 
 func clientsScenario(a schedArg) (func() string, string, error) {
 	set := clientSets[a.Variant%len(clientSets)]
